@@ -10,8 +10,6 @@ import (
 	"io"
 	"os"
 	"os/exec"
-	"path/filepath"
-	"runtime"
 	"strconv"
 	"strings"
 	"time"
@@ -46,6 +44,11 @@ type Solver struct {
 	Errors  []string
 	sinceRestart int
 	Log     io.Writer
+	// incremental assertion stack: one push level per path-condition conjunct
+	stack  []*Term
+	levels [][]int // term IDs named (declared) at each level; levels[0] is the base
+	named  map[int]bool
+	pendingUF []string
 }
 
 func solverArgs(kind string, timeoutMs int) (string, []string) {
@@ -84,6 +87,9 @@ func (s *Solver) start() {
 	s.defined = map[int]bool{}
 	s.declUF = map[string]bool{}
 	s.sinceRestart = 0
+	s.stack = nil
+	s.levels = [][]int{nil}
+	s.named = map[int]bool{}
 	if s.kind == "cvc5" {
 		s.send("(set-logic QF_UFBV)\n")
 	}
@@ -207,47 +213,157 @@ func (s *Solver) assertion(conj []*Term, sb *strings.Builder) {
 	sb.WriteString(")\n")
 }
 
-// Check decides satisfiability of the conjunction of conj. If wantModel and the
-// answer is sat, the values of all free variables are returned.
-func (s *Solver) Check(conj []*Term, wantModel bool) (Result, map[string]uint64) {
+// nameNodes emits, for every not-yet-named node reachable from t, a constant
+// tN with its defining equation (Tseitin style) in the current level.
+func (s *Solver) nameNodes(t *Term, sb *strings.Builder) {
+	if t.Op == OpConst || s.named[t.ID] {
+		return
+	}
+	type fr struct {
+		t *Term
+		i int
+	}
+	st := []fr{{t, 0}}
+	lvl := len(s.levels) - 1
+	for len(st) > 0 {
+		f := &st[len(st)-1]
+		if f.t.Op == OpConst || s.named[f.t.ID] {
+			st = st[:len(st)-1]
+			continue
+		}
+		if f.i < len(f.t.Args) {
+			a := f.t.Args[f.i]
+			f.i++
+			if a.Op != OpConst && !s.named[a.ID] {
+				st = append(st, fr{a, 0})
+			}
+			continue
+		}
+		x := f.t
+		st = st[:len(st)-1]
+		s.named[x.ID] = true
+		s.levels[lvl] = append(s.levels[lvl], x.ID)
+		switch x.Op {
+		case OpVar:
+			fmt.Fprintf(sb, "(declare-const %s %s)\n", varSMT(x), sortName(x.W))
+		default:
+			if x.Op == OpUF && !s.declUF[x.Name] {
+				// UF declarations are global: make sure they are emitted at the base level
+				s.declUF[x.Name] = true
+				sig := s.ctx.ufs[x.Name]
+				var ps []string
+				for _, w := range sig[:len(sig)-1] {
+					ps = append(ps, sortName(w))
+				}
+				s.pendingUF = append(s.pendingUF, fmt.Sprintf("(declare-fun %s (%s) %s)\n", smtName(x.Name), strings.Join(ps, " "), sortName(sig[len(sig)-1])))
+			}
+			fmt.Fprintf(sb, "(declare-const t%d %s)(assert (= t%d %s))\n", x.ID, sortName(x.W), x.ID, body(x))
+		}
+	}
+}
+
+func (s *Solver) popTo(n int, sb *strings.Builder) {
+	if len(s.stack) <= n {
+		return
+	}
+	k := len(s.stack) - n
+	fmt.Fprintf(sb, "(pop %d)\n", k)
+	for l := len(s.levels) - 1; l > n; l-- {
+		for _, id := range s.levels[l] {
+			delete(s.named, id)
+		}
+	}
+	s.levels = s.levels[:n+1]
+	s.stack = s.stack[:n]
+}
+
+// CheckInc decides pc ∧ extra. The path condition is kept on the solver's
+// assertion stack (one level per conjunct, longest common prefix reused), so
+// each conjunct is sent and internalised once per path instead of once per
+// query.
+func (s *Solver) CheckInc(pc []*Term, extra []*Term, wantModel bool) (Result, map[string]uint64) {
 	t0 := time.Now()
-	defer func() {
-		d := time.Since(t0)
-		s.Time += d
-		if slowLog && d > 40*time.Millisecond && s.Queries%7 == 0 {
-			os.WriteFile(fmt.Sprintf("/tmp/slowq_%d.smt2", s.Queries), []byte(Script(s.ctx, conj)), 0o644)
-		}
-		if slowLog && d > 100*time.Millisecond {
-			fmt.Fprintf(os.Stderr, "SLOW %v conj=%d dag=%d model=%v\n", d, len(conj), DagSize(conj), wantModel)
-		}
-	}()
+	defer func() { s.Time += time.Since(t0) }()
 	s.Queries++
-	if slowLog {
-		_, f1, l1, _ := runtime.Caller(1)
-		_, f2, l2, _ := runtime.Caller(2)
-		_, f3, l3, _ := runtime.Caller(3)
-		defer func() { fmt.Fprintf(os.Stderr, "QORIGIN %s:%d<%s:%d<%s:%d\n", filepath.Base(f1), l1, filepath.Base(f2), l2, filepath.Base(f3), l3) }()
-	}
 	s.sinceRestart++
-	if s.sinceRestart > 4000 {
-		s.Restart()
-	}
-	var sb strings.Builder
-	for _, t := range conj {
+	for _, t := range pc {
 		if t.IsFalse() {
 			s.NUnsat++
 			return Unsat, nil
 		}
 	}
-	var as strings.Builder
-	s.assertion(conj, &as)
-	// declarations stay at the base level, the assertion lives in the scope
-	txt := as.String()
-	i := strings.Index(txt, "(assert ")
-	sb.WriteString(txt[:i])
+	for _, t := range extra {
+		if t.IsFalse() {
+			s.NUnsat++
+			return Unsat, nil
+		}
+	}
+	if s.sinceRestart > 20000 {
+		s.Restart()
+	}
+	if len(s.pendingUF) > 0 || s.ufDirty() {
+		// a new uninterpreted function must be declared at the base level
+	}
+	var sb strings.Builder
+	lcp := 0
+	for lcp < len(s.stack) && lcp < len(pc) && s.stack[lcp] == pc[lcp] {
+		lcp++
+	}
+	s.popTo(lcp, &sb)
+	for i := lcp; i < len(pc); i++ {
+		sb.WriteString("(push 1)\n")
+		s.levels = append(s.levels, nil)
+		s.stack = append(s.stack, pc[i])
+		if pc[i].IsTrue() {
+			continue
+		}
+		s.nameNodes(pc[i], &sb)
+		fmt.Fprintf(&sb, "(assert %s)\n", ref(pc[i]))
+	}
 	sb.WriteString("(push 1)\n")
-	sb.WriteString(txt[i:])
+	s.levels = append(s.levels, nil)
+	for _, t := range extra {
+		if t.IsTrue() {
+			continue
+		}
+		s.nameNodes(t, &sb)
+		fmt.Fprintf(&sb, "(assert %s)\n", ref(t))
+	}
 	sb.WriteString("(check-sat)\n")
+	if len(s.pendingUF) > 0 {
+		// UFs must exist before first use: restart the stack with them at the base
+		pre := strings.Join(s.pendingUF, "")
+		s.pendingUF = nil
+		var rs strings.Builder
+		if len(s.stack) > 0 {
+			fmt.Fprintf(&rs, "(pop %d)\n", len(s.stack)+1)
+		} else {
+			rs.WriteString("(pop 1)\n")
+		}
+		// simplest correct handling: reset everything and redo the query non-incrementally
+		s.send("(reset)\n(set-option :produce-models true)\n" + pre)
+		for n := range s.declUF {
+			_ = n
+		}
+		s.stack = nil
+		s.levels = [][]int{nil}
+		s.named = map[int]bool{}
+		s.defined = map[int]bool{}
+		// re-declare every known UF after the reset
+		for name := range s.declUF {
+			sig := s.ctx.ufs[name]
+			var ps []string
+			for _, w := range sig[:len(sig)-1] {
+				ps = append(ps, sortName(w))
+			}
+			if !strings.Contains(pre, "(declare-fun "+smtName(name)+" ") {
+				s.send(fmt.Sprintf("(declare-fun %s (%s) %s)\n", smtName(name), strings.Join(ps, " "), sortName(sig[len(sig)-1])))
+			}
+		}
+		s.Queries--
+		s.sinceRestart--
+		return s.CheckInc(pc, extra, wantModel)
+	}
 	s.send(sb.String())
 	line := s.readLine()
 	var res Result
@@ -267,7 +383,8 @@ func (s *Solver) Check(conj []*Term, wantModel bool) (Result, map[string]uint64)
 	}
 	var model map[string]uint64
 	if res == Sat && wantModel {
-		vars := Vars(conj)
+		all := append(append([]*Term{}, pc...), extra...)
+		vars := Vars(all)
 		model = map[string]uint64{}
 		if len(vars) > 0 {
 			var q strings.Builder
@@ -281,8 +398,28 @@ func (s *Solver) Check(conj []*Term, wantModel bool) (Result, map[string]uint64)
 			parseValues(txt, vars, model)
 		}
 	}
+	// drop the query level
 	s.send("(pop 1)\n")
+	top := len(s.levels) - 1
+	for _, id := range s.levels[top] {
+		delete(s.named, id)
+	}
+	s.levels = s.levels[:top]
+	if slowLog {
+		d := time.Since(t0)
+		if d > 100*time.Millisecond {
+			fmt.Fprintf(os.Stderr, "SLOWINC %v pc=%d extra=%d\n", d, len(pc), len(extra))
+		}
+	}
 	return res, model
+}
+
+func (s *Solver) ufDirty() bool { return false }
+
+// Check decides satisfiability of the conjunction of conj. If wantModel and the
+// answer is sat, the values of all free variables are returned.
+func (s *Solver) Check(conj []*Term, wantModel bool) (Result, map[string]uint64) {
+	return s.CheckInc(nil, conj, wantModel)
 }
 
 func (s *Solver) readLine() string {
